@@ -41,8 +41,8 @@ BOUNDS = {
              "composition law for every pair (s1 any form, s2 from a 9-element subset)",
     "thorough": "0..5 rows, composition for all pairs",
 }
-OUTSIDE = "tables with more than 5 rows; user regular expressions beyond the generated family; float columns (reals) in ranges"
-REQUIRED_CLASSES = ["range_checked", "regex_checked", "composition", "indices_mask", "keyerror", "empty_result"]
+OUTSIDE = "tables with more than 5 rows; user regular expressions beyond the generated family; float columns (reals) in ranges other than NaN cells and NaN bounds"
+REQUIRED_CLASSES = ["range_checked", "nan_cell", "regex_checked", "composition", "indices_mask", "keyerror", "empty_result"]
 PROFILE_CASES = 6
 TASKS_PER_CHILD = 200
 ALPHA = ["a", "b", "c"]
@@ -131,13 +131,16 @@ def selectors(ex, names, sym):
     out.append(("range ::'s'", slice(None, None, "s"), list(range(n))))
     out.append(("range 0:hi:'s'", slice(0, hi, "s"), ("range", 0, hi)))
     out.append(("range lo:0:'s'", slice(lo, 0, "s"), ("range", lo, 0)))
+    # a NaN bound compares false with every value: nothing is selected
+    out.append(("range nan:hi:'s'", slice(float("nan"), hi, "s"), []))
+    out.append(("range lo:nan:'s'", slice(lo, float("nan"), "s"), []))
     return out
 
 
-def make_table(ex, xd, names):
+def make_table(ex, xd, names, nan=()):
     n = len(names)
     data = {"name": np.array(names, dtype=object) if n else np.array([], dtype=object),
-            "s": np.array([ex.int(f"s{i}") for i in range(n)], dtype=object),
+            "s": np.array([float("nan") if i in nan else ex.int(f"s{i}") for i in range(n)], dtype=object),
             "w": np.array([ex.int(f"w{i}") for i in range(n)], dtype=object)}
     return xd.Table(data, index="name"), data
 
@@ -186,6 +189,13 @@ def decide_range(ex, t, data, ref, resolved_idx, desc, det):
     note(ex, "range_checked")
     for i in range(n):
         conds = []
+        if isinstance(data["s"][i], float) and data["s"][i] != data["s"][i]:
+            # a NaN cell satisfies no comparison
+            note(ex, "nan_cell")
+            if i in resolved_idx:
+                ex.fail(f"{desc}: row {i} selected although s[{i}] is NaN", det)
+                return False
+            continue
         if lo is not None:
             conds.append(tobool(lo <= data["s"][i]))
         if hi is not None:
@@ -244,7 +254,7 @@ def run_case(ex, case):
     xd = get_xdeps("pure", "start_set_only")
     names = case["pattern"]
     n = len(names)
-    t, data = make_table(ex, xd, names)
+    t, data = make_table(ex, xd, names, case.get("nan", ()))
     if case.get("derived"):
         # the table under test is t0 + u, built after a name lookup has been made on t0
         k = case["derived"]
@@ -365,13 +375,19 @@ def cases(tier):
     derived = [(["a", "b", "a"], 2), (["a", "b", "c", "a"], 2), (["a", "a", "b", "c"], 3), (["b", "a", "b"], 1)]
     for pat in pats:
         n = len(pat)
-        nsel = 2 * n + 5 + (2 ** n if n else 0) + 3 + 20 + 9 + 6
+        nsel = 2 * n + 5 + (2 ** n if n else 0) + 3 + 20 + 9 + 8
         for s1 in range(nsel):
             out.append({"pattern": pat, "s1": s1, "s2list": S2_QUICK if tier == "quick" else None,
                         "compose": n <= 3 or tier != "quick"})
+    # NaN cells in the range column
+    for pat, nan in ((["a"], [0]), (["a", "b"], [1]), (["a", "b", "a"], [0]), (["a", "b", "a"], [1, 2]), (["a", "a", "b", "c"], [0, 3])):
+        n = len(pat)
+        nsel = 2 * n + 5 + 2 ** n + 3 + 20 + 9 + 8
+        for s1 in range(nsel):
+            out.append({"pattern": pat, "nan": nan, "s1": s1, "s2list": ["range lo:hi", "range :hi", "range lo::", "mask"], "compose": n <= 3})
     for pat, k in derived:
         n = len(pat)
-        nsel = 2 * n + 5 + 2 ** n + 3 + 20 + 9 + 6
+        nsel = 2 * n + 5 + 2 ** n + 3 + 20 + 9 + 8
         for s1 in range(nsel):
             out.append({"pattern": pat, "derived": k, "s1": s1, "s2list": S2_QUICK, "compose": False})
     return out
